@@ -158,6 +158,39 @@ def ob_date_carry(y: int, m: int, d: int) -> Optional[bool]:
     return same(DATE(y, m, d), ref)
 
 
+HIST_YEARS = (1900, 1904, 2000, 2100, 2300, 2400, 9900)
+
+
+def ob_date_history(i: int, j: int, d: int, e: int) -> Optional[bool]:
+    """two DATE calls in one history: the second answer does not depend on the first (month lengths of years that are
+    400 apart - 1900 with Excel's 29 February, 2300 without - must not be confused).  Years and days are branched into
+    constants and the calls run with the tracer off, so that process state (module-level caches) is the real one."""
+    ys = []
+    for k in (i, j):
+        y = None
+        for n, cand in enumerate(HIST_YEARS):
+            if k == n:
+                y = cand
+        if y is None:
+            return None
+        ys.append(y)
+    ds = []
+    for k in (d, e):
+        if k == 28:
+            ds.append(28)
+        elif k == 29:
+            ds.append(29)
+        elif k == 30:
+            ds.append(30)
+        else:
+            return None
+    from vf import wb
+    with wb.notrace():
+        got = [DATE(ys[0], 2, ds[0]), DATE(ys[1], 2, ds[1])]
+        exp = [31 + dd if yy == 1900 else _serial_of(yy, 2, dd) for yy, dd in zip(ys, ds)]
+    return same(got[0], exp[0]) and same(got[1], exp[1])
+
+
 def ob_date_carry_far(y: int, m: int, d: int) -> Optional[bool]:
     """day counts beyond a year carry across year ends (leap and common) exactly"""
     if not (1901 <= y <= 9990 and 1 <= m <= 12 and 330 <= d <= 420):
@@ -322,6 +355,7 @@ def obligations(tier):
     add("date_carry_zero_31", "ob_date_carry_zero_31", (), 300 * T, group="date")
     add("date_range", "ob_date_range", (), 300 * T, group="date")
     add("date_carry_far", "ob_date_carry_far", (), 400 * T, group="date")
+    add("date_history", "ob_date_history", (), 300, group="date")
     add("eomonth_1900", "ob_eomonth_1900", (), 400 * T, group="months")
     add("eomonth_low", "ob_eomonth_low", (), 300 * T, group="months")
     add("yearfrac_range", "ob_yearfrac_range", (), 200, group="yearfrac")
